@@ -12,16 +12,6 @@ pub closed spec fn tsv(t: &TagState) -> TagV {
     }
 }
 
-/// neither is a prefix of the other (equal names included)
-pub open spec fn prefix_related(a: Seq<char>, b: Seq<char>) -> bool {
-    a.is_prefix_of(b) || b.is_prefix_of(a)
-}
-
-/// C14: "None of the tags can be prefix of another tag"
-pub open spec fn prefix_free(m: Map<Seq<char>, Seq<char>>) -> bool {
-    forall|a: Seq<char>, b: Seq<char>| m.contains_key(a) && m.contains_key(b) && a != b ==> !prefix_related(a, b)
-}
-
 pub proof fn lemma_smap_contains(m: Map<String, String>, k: Seq<char>)
     ensures
         smap_v(m).contains_key(k) <==> exists|s: String| m.contains_key(s) && s@ == k,
